@@ -40,7 +40,7 @@ CATALOGUES = {
         "E|*|a+|b+|2|4$|0|2|*", "E|e4|a+|a-|2|4$|2|4$|*", "E|e5|b+|c+|3|6$|0|3$|*",
         "G|g1|a+|b-|10|*", "G|g2|b+|c+|5|2",
         "F|a|x+|0|2|0|2|*", "F|a|x-|1|3|0|2|*",
-        "O|o1|a+ b+", "O|o2|a+ e1+ b+", "O|o3|o2- c+", "O|o1|c+|xx:i:1",
+        "O|o1|a+ b+", "O|o2|a+ e1+ b+", "O|o3|o2- c+", "O|o1|c+|xx:i:1", "O|o6|e1- a-", "O|o7|e5- b-",
         "U|u1|a e1 g1", "U|u2|u1 o1", "U|u1|c|yy:i:2", "U|u1|b|yy:i:3",
         "U|u3|u4", "U|u4|u3",
         "X|custom|1", "S|o1|3|*", "S|2|3|*", "E|7|a+|2+|0|1|2|3$|*",
@@ -53,7 +53,7 @@ CATALOGUES = {
         "S|a|4|*", "S|b|6|*",
         "E|e1|a+|b+|2|4$|0|2|*", "E|*|a+|b+|2|4$|0|2|*", "E|e2|a+|b-|0|4$|1|5|*",
         "G|g1|a+|b-|10|*",
-        "O|o1|a+ e1+ b+", "U|u1|a e1 g1", "U|u2|u1 o1",
+        "O|o1|a+ e1+ b+", "U|u1|a e1 g1", "U|u2|u1 o1", "O|o6|e1- a-",
     ], ids=["a", "b", "e1", "g1", "o1", "u1", "zz"], renames=[("a", "d"), ("e1", "u1")],
         tagedits=[("a", "xx:i:5"), ("u1", "yy:i:9")], validate=True),
 }
@@ -71,7 +71,7 @@ CATALOGUES["perm2"] = dict(version="gfa2", lines=[
     "E|e1|a+|b+|2|4$|0|2|2M", "E|e2|a+|b-|0|4$|1|5|*", "E|*|a+|c+|1|2|1|2|*", "E|e5|b+|c+|3|6$|0|3$|*",
     "G|g1|a+|b-|10|*", "F|a|x+|0|2|0|2|*",
     "O|o1|a+ b+", "O|o2|a+ e1+ b+", "O|o3|o2- c+", "O|o1|c+|xx:i:1",
-    "U|u1|a e1 g1", "U|u2|u1 o1", "U|u1|c|yy:i:2", "U|u5|a g1", "O|o5|a+ g1+ b-",
+    "U|u1|a e1 g1", "U|u2|u1 o1", "U|u1|c|yy:i:2", "U|u5|a g1", "O|o5|a+ g1+ b-", "O|o6|e1- a-",
     "X|custom|1", "H|VN:Z:2.0", "H|TS:i:10",
 ], ids=["a", "b", "c", "e1", "g1", "o1", "o2", "u1"], renames=[])
 
